@@ -47,12 +47,14 @@ def build_driver():
         raise CannotAnalyse("driver build failed:\n" + r.stderr[-4000:])
 
 
-def _run_extraction(repo, facts_dir, target_dir, extra_args=(), test_profile=False):
+def _run_extraction(repo, facts_dir, target_dir, extra_args=(), test_profile=False, crates=None, members=None):
     os.makedirs(facts_dir, exist_ok=True)
     for f in glob.glob(os.path.join(facts_dir, "*.json")):
         os.remove(f)
+    crates = crates or CRATES
+    members = members or MEMBERS
     # cargo's freshness cache would skip the wrapper: drop the members' fingerprints
-    for m in MEMBERS:
+    for m in members:
         for d in glob.glob(os.path.join(target_dir, "debug", ".fingerprint", m + "-*")):
             shutil.rmtree(d, ignore_errors=True)
     env = dict(os.environ)
@@ -62,16 +64,45 @@ def _run_extraction(repo, facts_dir, target_dir, extra_args=(), test_profile=Fal
         "RUSTC_WORKSPACE_WRAPPER": DRIVER,
         "CARGO_TARGET_DIR": target_dir,
         "CARGO_NET_OFFLINE": "true",
-        "VJSX_CRATES": ",".join(CRATES),
+        "VJSX_CRATES": ",".join(crates),
         "VJSX_FACTS_DIR": facts_dir,
     })
-    cmd = ["cargo", "+nightly", "check", "--offline", "--workspace"] + list(extra_args)
+    cmd = ["cargo", "+nightly", "check", "--offline"] + (["--workspace"] if crates is CRATES else []) + list(extra_args)
     r = subprocess.run(cmd, cwd=repo, env=env, capture_output=True, text=True)
     if r.returncode != 0:
         raise CannotAnalyse("cargo check under the extractor failed:\n" + r.stderr[-6000:])
-    for c in CRATES:
-        if not os.path.exists(os.path.join(facts_dir, c + ".json")):
+    for c in crates:
+        if not (os.path.exists(os.path.join(facts_dir, c + ".json")) or (test_profile and os.path.exists(os.path.join(facts_dir, c + ".test.json")))):
             raise CannotAnalyse("fact file for %s was not freshly written (fail closed)" % c)
+
+
+def ensure_controls():
+    """facts of /verif/controls (positive examples for the zero-count rules); cached by the crate's own hash"""
+    os.makedirs(CACHE, exist_ok=True)
+    lock = open(os.path.join(CACHE, "extract.lock"), "w")
+    fcntl.flock(lock, fcntl.LOCK_EX)
+    try:
+        if not os.path.exists(DRIVER) or _driver_stale():
+            build_driver()
+        cdir = os.path.join(VERIF, "controls")
+        h = hashlib.sha256()
+        for f in sorted(glob.glob(os.path.join(cdir, "src", "*.rs")) + [os.path.join(cdir, "Cargo.toml")] + glob.glob(os.path.join(VERIF, "extractor", "src", "*.rs"))):
+            h.update(open(f, "rb").read())
+        h = h.hexdigest()
+        out = os.path.join(CACHE, "facts-controls")
+        stamp = os.path.join(out, "HASH")
+        if not (os.path.exists(stamp) and open(stamp).read().strip() == h and os.path.exists(os.path.join(out, "vjsx_controls.json"))):
+            if os.path.exists(stamp):
+                os.remove(stamp)
+            # same dependency versions as /repo
+            shutil.copy(os.path.join(REPO, "Cargo.lock"), os.path.join(cdir, "Cargo.lock"))
+            _run_extraction(cdir, out, os.path.join(CACHE, "target"), extra_args=(), crates=["vjsx_controls"], members=["vjsx-controls"])
+            with open(stamp, "w") as fh:
+                fh.write(h)
+        return out
+    finally:
+        fcntl.flock(lock, fcntl.LOCK_UN)
+        lock.close()
 
 
 def ensure_facts(repo=REPO, want_test=False):
@@ -102,7 +133,7 @@ def ensure_facts(repo=REPO, want_test=False):
             if not (os.path.exists(tstamp) and open(tstamp).read().strip() == h):
                 if os.path.exists(tstamp):
                     os.remove(tstamp)
-                _run_extraction(repo, tdir, os.path.join(CACHE, "target"), ["--profile", "test"])
+                _run_extraction(repo, tdir, os.path.join(CACHE, "target"), ["--profile", "test"], test_profile=True)
                 with open(tstamp, "w") as fh:
                     fh.write(h)
         return facts_dir, h, (not fresh), time.time() - t0
